@@ -1,6 +1,6 @@
 (* C15 property theorems: statements only, each closed by `exact`, with Print Assumptions. *)
-From Coq Require Import ZArith QArith Qabs List Bool Lqa.
-From QE Require Import Base.Num C15.Model C15.Proofs.
+From Coq Require Import ZArith QArith Qabs List Bool Lia Lqa.
+From QE Require Import Base.Num C15.Model C15.Proofs C15.Proofs2.
 Import ListNotations.
 
 (* compute_fixed_point(method='iteration') on any space V with a pseudo-metric dist (the code's error functional
@@ -64,6 +64,25 @@ Theorem C15_mt_converged_eps_nash_check : forall (g : list (list Q)) (nums : lis
    forall i, (i < length g)%nat -> forall u, In u (pv i) -> u - dot (nth i prof []) (pv i) <= eps).
 Proof. exact mt_converged_eps_nash_check. Qed.
 Print Assumptions C15_mt_converged_eps_nash_check.
+
+(* any number of players: entry r of the code's payoff vector (repeated dot with the opponents' mixed actions on
+   the last axis of the C-ordered payoff array, last opponent first) is the multilinear expected payoff
+   sum_{a_1} s_1(a_1) ... sum_{a_m} s_m(a_m) flat[((r k_1 + a_1) k_2 + a_2) ... + a_m]  (`expect`, Proofs2.v),
+   provided the array has n * k_1 * ... * k_m entries and every opponent has at least one action *)
+Theorem C15_payoff_vector_expect : forall (flat : list Q) (opps : list (list Q)) (n r : nat),
+  shape_ok n (rev opps) (length flat) ->
+  nth r (payoff_vector flat opps) 0 == expect (rev opps) (fun i => nth i flat 0) r /\
+  length (payoff_vector flat opps) = n.
+Proof. exact payoff_vector_expect. Qed.
+Print Assumptions C15_payoff_vector_expect.
+
+Example ex_shape_ok :   (* a 2 x 3 x 2 array against mixed actions of lengths 3 and 2 *)
+  shape_ok 2 (rev [[1 # 3; 1 # 3; 1 # 3]; [1 # 2; 1 # 2]]) (length [1; 2; 3; 4; 5; 6; 7; 8; 9; 10; 11; 12]) /\
+  payoff_vector (T := Q) [1; 2; 3; 4; 5; 6; 7; 8; 9; 10; 11; 12] [[1 # 3; 1 # 3; 1 # 3]; [1 # 2; 1 # 2]] = [7 # 2; 19 # 2].
+Proof.
+  split; [|vm_compute; reflexivity].
+  simpl. split; [lia|]. exists 6%nat. split; [reflexivity|]. split; [lia|]. exists 2%nat. split; reflexivity.
+Qed.
 
 Example ex_mt_check :   (* matching pennies at the uniform profile, epsilon = 0 *)
   is_epsilon_nash (T := Q) [[1; -1; -1; 1]; [-1; 1; 1; -1]] [2; 2]%nat [1 # 2; 1 # 2; 1 # 2; 1 # 2] 0 = true /\
